@@ -175,3 +175,31 @@ def ge4(P, C):
          ("%d successful return(s), each after a->rows and a->ranges[dim] = b->ncol were stored" % len(rets)) if not bad else
          "`return 0` at %s is reached without storing %s: the array still describes the operand, and the caller goes on as if it were the product"
          % (f.loc(bad[0][0]), " and ".join("a->" + x for x in bad[0][1])))
+
+
+def ge5(P, C):
+    """GE-5: grid evaluation is linear in the coefficients: no absolute threshold on the way."""
+    C.rule("GE-5", "grid evaluation scales with the table: bsplinebasis, slicemultiply and grideval contain no floating constant other than 0 and "
+           "+-1, compare floating values only with 0 or with each other, and call none of CHOLMOD's thresholding routines (cholmod_l_drop): an "
+           "absolute tolerance makes small-scale tables lose grid points that pointwise evaluation still returns", floor=3)
+    fns = [("bsplinebasis", P.one("bsplinebasis", file_endswith="splineutil.c")), ("slicemultiply", P.one("slicemultiply", file_endswith="splineutil.c"))] + \
+          [("grideval", g) for g in P.fns("grideval") if g.cls == ts.CLS and g.unit == "driver"][:1]
+    for name, f in fns:
+        bad = []
+        for i in f.walk():
+            n = f.nodes[i]
+            if n["k"] == "FloatingLiteral" and n.get("v") not in (0, 1, -1, 0.0, 1.0, -1.0):
+                bad.append((i, "floating constant %s%s" % (n.get("v"), " (%s)" % n["macros"][-1] if n.get("macros") else "")))
+            if n["k"] == "BinaryOperator" and n["op"] in ("<", ">", "<=", ">="):
+                l, r = f.strip(n["ch"][0], casts=True), f.strip(n["ch"][1], casts=True)
+                if any("double" in f.nodes[x].get("t", "") or "float" in f.nodes[x].get("t", "") for x in (n["ch"][0], n["ch"][1], l, r)):
+                    for side in (l, r):
+                        sn = f.nodes[side]
+                        if sn["k"] in ("FloatingLiteral", "IntegerLiteral") and sn.get("v") not in (0, 0.0):
+                            bad.append((i, "comparison %s" % f.render(i)))
+            cal = n.get("callee")
+            if cal and cal["name"] in ("cholmod_l_drop", "cholmod_drop"):
+                bad.append((i, "%s(%s, ...)" % (cal["name"], f.render(f.args(i)[0]))))
+        C.ob("GE-5", name, "no-absolute-threshold", not bad, f.loc(bad[0][0]) if bad else f.where(),
+             "no absolute constant, no thresholding call" if not bad else
+             "%s: entries below an absolute size are dropped, so the grid values of a table of small scale are not the values pointwise evaluation returns" % bad[0][1])
